@@ -19,7 +19,8 @@ What is abstracted (an `Oracle`, chosen freshly at every step — theorems quant
                        effect request, or "no implementation registered",
   * `select`           what `process_select_sources` decides on this execution of `Select`:
                        complete with a value / run the filter function `sources[k]` on a message /
-                       park / fail (resource or invalid source). Mailbox scanning, cursors, time-outs
+                       park / fail (resource or invalid source, or the propagated error of an
+                       awaited process that failed). Mailbox scanning, cursors, time-outs
                        and await bookkeeping are M-Exec (C05); here only their effect on the shape
                        of the process is modelled.
 Binary constants are pushed as `bin (const i)` (the executor pushes the cached heap handle of
@@ -46,6 +47,9 @@ inductive SelectDecision where
   | failType
   /-- `InvalidArgument` (invalid select source / missing receive result) -/
   | failInvalid
+  /-- an awaited source has failed: `handle_select_process` propagates that process's error
+  (`awaiting_failed`, repo commit bc74ad3) -/
+  | failAwaited (cls : String)
   deriving Repr, Inhabited
 
 structure Oracle where
@@ -253,7 +257,8 @@ def handleEqual (O : Oracle) (p : Proc) (n : Nat) : Res :=
     | [] => .error .panic
     | first :: rest =>
       let allEq := (first :: rest).all (fun v => O.valuesEqual first v)
-      ok ({ p with stack := (if allEq then first else Val.nil) :: p.stack.drop n }.bump)
+      -- a verdict (`Ok` / nil), not the compared value (repo commit 1355722)
+      ok ({ p with stack := (if allEq then Val.ok else Val.nil) :: p.stack.drop n }.bump)
 
 def handleNot (p : Proc) : Res :=
   match p.stack with
@@ -331,6 +336,7 @@ def selectDecide (O : Oracle) (P : Prog) (p : Proc) (st : SelectState) : Res :=
   | .park => ok { p with selectState := some { st with receiving := none }, park := .selecting }
   | .failType => .error .typeMismatch
   | .failInvalid => .error .invalidArgument
+  | .failAwaited cls => .error (.awaitedFailed cls)
 
 def handleSelect (O : Oracle) (P : Prog) (p : Proc) : Res :=
   match p.selectState with
